@@ -393,11 +393,11 @@ pub fn run_case(case: &Value, kind: &str, seed: u64) -> Value {
         LOG.with(|l| l.borrow_mut().clear());
         SCORED.with(|l| l.borrow_mut().clear());
         let op = build(&case["e"], kind);
-        // the SAME composition object has a history: it was applied before - once with a component
-        // failing early, once with one failing late or not at all. What it does now is a function of
+        // the SAME composition object has a history: it was applied before - without a failure, then with a
+        // component failing early, then with one failing late (so the last thing that happened to it may be a failure). What it does now is a function of
         // the expression, the input and the generator, not of what happened to it earlier.
         if seed % 2 == 1 {
-            for warm in [1 + seed % 3, 4 + seed % 5, 0] {
+            for warm in [0, 1 + seed % 3, 4 + seed % 5] {
                 FAIL_AT.with(|f| f.set(warm));
                 CALLS.with(|c| c.set(0));
                 let mut scratch = CountingRng(run_rng(seed, 0xC14, 2 + warm));
